@@ -13,6 +13,9 @@ pub type E = u8;
 // panic handling: a panic in the code under test is data
 // ---------------------------------------------------------------------------------------------
 pub fn silence_panics() {
+    if std::env::var("VERIF_PANIC_VERBOSE").is_ok() {
+        return;
+    }
     std::panic::set_hook(Box::new(|_| {}));
 }
 pub fn catch<R>(f: impl FnOnce() -> R) -> Result<R, String> {
